@@ -419,6 +419,12 @@ Example check_state_rejects_obs_hint :
   nth 3 (check_state tol9 pin_p pin_st (OStep [[3]] [2] [true])
            (mk_ck [Some (0, 1, eps_default, 1001 # 1000)] (0, 1, eps_default, 1) [0] [[3000 # 1001]] [Some ([5], [5000 # 1001])] [] [2] [[3]] [2] [2])) true = false.
 Proof. vm_compute. reflexivity. Qed.
+(* the threshold of the hint is 4*tol + 1e-8 (1.4e-8 here): s*s = 1 + 1e-8 is accepted, s*s = 1 + 2e-8 is rejected *)
+Example check_state_hint_threshold :
+  let ck (s : Q) := mk_ck [Some (0, 1, eps_default, s)] (0, 1, eps_default, 1) [0] [[3 / s]] [Some ([5], [5 / s])] [] [2] [[3]] [2] [2] in
+  nth 3 (check_state tol9 pin_p pin_st (OStep [[3]] [2] [true]) (ck (200000001 # 200000000))) false = true /\
+  nth 3 (check_state tol9 pin_p pin_st (OStep [[3]] [2] [true]) (ck (100000001 # 100000000))) true = false.
+Proof. vm_compute. split; reflexivity. Qed.
 (* statistics: every component of every channel is compared *)
 Example stats_pins :
   rms_close tol9 tol9 (mk_rms 1 2 3) 1 2 3 = true /\ rms_close tol9 tol9 (mk_rms 1 2 3) 0 2 3 = false /\
